@@ -50,6 +50,7 @@ func (w *wire) do(method, path string, cookie *string, body string) (code int, o
 func TestRestWire(t *testing.T) {
 	const prop = "C15"
 	res := common.NewResult("restwire")
+	startWatchdog(res)
 	res.Rule = "random request sequences (1-3 sessions; TryLock/Unlock/Renew with valid and invalid parameters; session ends; no time gaps) sent over gRPC (direct service calls under a connection context) to one fresh server and over REST to another through the real http.Server on a loopback listener, all REST sessions of a sequence sharing one keep-alive connection; responses and hold listings compared after every step. distinct = distinct semantic step sequence; non-trivial = two or more sessions, a grant and a session end"
 	defer func() {
 		if err := res.Write(); err != nil {
